@@ -3,6 +3,7 @@ import Model.LoaderBin
 import Model.Search
 import Generated.C10
 import Proofs.LoaderArpa
+import Proofs.LoaderProbing
 import Proofs.Search
 import Proofs.WellFormed
 /-! C10 — Loaders reject malformed input with an exception and never misbehave.
@@ -514,6 +515,199 @@ theorem probing_ignores_duplicates (maxO : Nat) (multOk : Bool) (b : Nat → Nat
 two adjacent copies in one batch are not -/
 example : crossBatchDup [[1,2],[3,4],[5,6],[7,8],[1,2]] 2 = true := by decide +kernel
 example : crossBatchDup [[1,2],[1,2],[5,6],[7,8],[9,9]] 2 = false := by decide +kernel
+
+/-! ## accepted by the probing family -/
+
+/-- C01's `WellFormed` with the context clause weakened to what the probing builder guarantees: the context of every n-gram
+is an n-gram of the file **or a blank** (a proper reversed prefix, of length ≥ 2, of an n-gram of the file — the entries
+`FindLower` hallucinates, which `Table.build` also contains).  `WellFormed` is the special case without the second disjunct. -/
+structure WellFormedThroughBlanks (a : Arpa) : Prop where
+  order_ge : 2 ≤ a.order
+  len_pos : ∀ g, a.gram g ≠ none → g ≠ []
+  len_le : ∀ g, a.gram g ≠ none → g.length ≤ a.order
+  ctx_reachable : ∀ x g, g ≠ [] → a.gram (x :: g) ≠ none →
+    a.gram g ≠ none ∨ ∃ h, a.gram h ≠ none ∧ 2 ≤ g.length ∧ g.length < h.length ∧ g = h.take g.length
+  top_bo : ∀ g e, a.gram g = some e → g.length = a.order → e.backoff = 0
+
+/-- what the front end alone guarantees about the `Arpa` of an accepted file: everything in `WellFormed` except the
+context clause, plus the two bridges between `p.keys` and `Arpa.gram` -/
+theorem parsed_core (maxO : Nat) (multOk : Bool) (s : Bytes) (p : LParsed) (u : Rat)
+    (hp : LoaderArpa.parse maxO multOk s = .ok p) :
+    2 ≤ (p.toArpa u).order ∧
+    (∀ g, (p.toArpa u).gram g ≠ none → g ≠ []) ∧
+    (∀ g, (p.toArpa u).gram g ≠ none → g.length ≤ (p.toArpa u).order) ∧
+    (∀ g e, (p.toArpa u).gram g = some e → g.length = (p.toArpa u).order → e.backoff = 0) ∧
+    (∀ g, 2 ≤ g.length → (p.toArpa u).gram g ≠ none → g ∈ (p.grams.drop 1).flatten.map (·.1)) ∧
+    (∀ k ∈ p.keys, (p.toArpa u).gram k ≠ none) := by
+  have wf := accepted_wellformed maxO multOk s p hp
+  have mem : ∀ g e, (p.toArpa u).gram g = some e →
+      (g = [0] ∧ e.backoff = 0) ∨ ∃ le ∈ p.entries, toEntry le = (g, e) := by
+    intro g e hg
+    have hm := KV.Score.lookup_some_mem _ _ _ hg
+    unfold LParsed.toArpa at hm
+    simp only at hm
+    split at hm
+    · exact Or.inr (by simpa [List.mem_map] using hm)
+    · rcases List.mem_cons.mp hm with hh | hh
+      · left
+        simp only [Prod.mk.injEq] at hh
+        exact ⟨hh.1, by rw [hh.2]⟩
+      · exact Or.inr (by simpa [List.mem_map] using hh)
+  have sect : ∀ le ∈ p.entries, ∃ (i : Nat) (es : List LE), p.grams[i]? = some es ∧ le ∈ es := by
+    intro le hle
+    unfold LParsed.entries at hle
+    obtain ⟨es, hes, hle⟩ := List.mem_flatten.mp hle
+    obtain ⟨i, hi, hget⟩ := List.getElem_of_mem hes
+    exact ⟨i, es, by rw [List.getElem?_eq_getElem hi, hget], hle⟩
+  have key1 : ∀ le, (toEntry le).1 = le.1 := by
+    intro le; unfold toEntry; split <;> rfl
+  have keybo : ∀ le, (toEntry le).2.backoff = le.2.2 := by
+    intro le; unfold toEntry; split <;> rfl
+  have glen : p.grams.length = p.order := by
+    have := congrArg List.length wf.2.2.2.1
+    simpa [wf.2.2.1] using this
+  refine ⟨wf.1, ?_, ?_, ?_, ?_, ?_⟩
+  · intro g hg hnil
+    obtain ⟨e, he⟩ := Option.ne_none_iff_exists'.mp hg
+    rcases mem g e he with ⟨h0, _⟩ | ⟨le, hle, hte⟩
+    · subst hnil; simp at h0
+    · obtain ⟨i, es, hi, hmem⟩ := sect le hle
+      have ok := wf.2.2.2.2.2.2 i es hi le hmem
+      have : g = le.1 := by rw [← key1 le, hte]
+      subst this
+      have := ok.len
+      rw [hnil] at this; simp at this
+  · intro g hg
+    obtain ⟨e, he⟩ := Option.ne_none_iff_exists'.mp hg
+    show g.length ≤ p.order
+    rcases mem g e he with ⟨h0, _⟩ | ⟨le, hle, hte⟩
+    · subst h0; simp only [List.length_cons, List.length_nil]; have := wf.1; omega
+    · obtain ⟨i, es, hi, hmem⟩ := sect le hle
+      have ok := wf.2.2.2.2.2.2 i es hi le hmem
+      have : g = le.1 := by rw [← key1 le, hte]
+      subst this
+      rw [ok.len]
+      have : i < p.grams.length := by
+        rcases List.getElem?_eq_some_iff.mp hi with ⟨hlt, _⟩; exact hlt
+      omega
+  · intro g e hg hlen
+    rcases mem g e hg with ⟨h0, hb0⟩ | ⟨le, hle, hte⟩
+    · exact hb0
+    · obtain ⟨i, es, hi, hmem⟩ := sect le hle
+      have ok := wf.2.2.2.2.2.2 i es hi le hmem
+      have hgk : g = le.1 := by rw [← key1 le, hte]
+      have hi1 : i + 1 = p.order := by
+        have := ok.len
+        rw [← hgk] at this
+        have hl : g.length = p.order := hlen
+        omega
+      have := ok.topbo (by simp [hi1])
+      have he : e = (toEntry le).2 := by rw [hte]
+      rw [he, keybo le]
+      exact this
+  · intro g h2 hg
+    obtain ⟨e, he⟩ := Option.ne_none_iff_exists'.mp hg
+    rcases mem g e he with ⟨h0, _⟩ | ⟨le, hle, hte⟩
+    · subst h0; simp at h2
+    · obtain ⟨i, es, hi, hmem⟩ := sect le hle
+      have ok := wf.2.2.2.2.2.2 i es hi le hmem
+      have hgk : g = le.1 := by rw [← key1 le, hte]
+      have hi1 : 1 ≤ i := by
+        have := ok.len
+        rw [← hgk] at this
+        omega
+      rw [hgk]
+      apply List.mem_map_of_mem
+      apply List.mem_flatten.mpr
+      refine ⟨es, ?_, hmem⟩
+      obtain ⟨j, rfl⟩ : ∃ j, i = j + 1 := ⟨i - 1, by omega⟩
+      have : (p.grams.drop 1)[j]? = some es := by
+        rw [List.getElem?_drop]; rw [Nat.add_comm]; exact hi
+      exact List.mem_of_getElem? this
+  · intro k hk hnone
+    unfold LParsed.keys at hk
+    obtain ⟨le, hle, rfl⟩ := List.mem_map.mp hk
+    have hin : toEntry le ∈ (p.toArpa u).entries := by
+      unfold LParsed.toArpa
+      simp only
+      have : toEntry le ∈ p.entries.map toEntry := List.mem_map_of_mem hle
+      split
+      · exact this
+      · exact List.mem_cons_of_mem _ this
+    unfold Arpa.gram at hnone
+    have := List.lookup_eq_none_iff.mp hnone
+    simp at this
+    exact this _ _ hin (key1 le).symm
+
+/-- **probing_accept_wellformed.**  Whatever the probing family accepts (front end, then blank insertion / context-so-far /
+capacity checks of the builder model) has order ≥ 2, non-empty keys no longer than the order, no back-off on the highest
+order, the vocabulary covered (the context word of a bigram has a unigram entry), and the context of every longer n-gram
+is an n-gram of the file or one of its blanks. -/
+theorem probing_accept_wellformed (maxO : Nat) (multOk : Bool) (b : Nat → Nat) (s : Bytes) (p : LParsed) (u : Rat) (mem : Nat)
+    (h : load .probing maxO multOk b s mem = .ok p) : WellFormedThroughBlanks (p.toArpa u) := by
+  unfold load at h
+  split at h
+  · simp at h
+  · rename_i p' hp
+    split at h
+    · simp at h
+    · rename_i hb
+      split at h
+      · simp at h
+      simp only [Except.ok.injEq] at h
+      subst h
+      obtain ⟨h1, h2, h3, h4, h5, h6⟩ := parsed_core maxO multOk s p' u hp
+      have hflag : (probingRun p').2 = true := ((probing_error_classes b p').2.2.mp hb).1
+      have wf := accepted_wellformed maxO multOk s p' hp
+      -- every line of order ≥ 2 is a key of the file and non-empty
+      have hall : ∀ g ∈ (p'.grams.drop 1).flatten.map (·.1), g ∈ p'.keys ∧ 0 < g.length := by
+        intro g hg
+        obtain ⟨le, hle, rfl⟩ := List.mem_map.mp hg
+        obtain ⟨es, hes, hmem⟩ := List.mem_flatten.mp hle
+        have hes' : es ∈ p'.grams := List.mem_of_mem_drop hes
+        refine ⟨?_, ?_⟩
+        · unfold LParsed.keys LParsed.entries
+          exact List.mem_map_of_mem (List.mem_flatten.mpr ⟨es, hes', hmem⟩)
+        · obtain ⟨i, hi, hget⟩ := List.getElem_of_mem hes'
+          have ok := wf.2.2.2.2.2.2 i es (by rw [List.getElem?_eq_getElem hi, hget]) le hmem
+          rw [ok.len]; omega
+      have reach := run_reach p'.keys p'.order _ ([], true) hall (by intro k hk; cases hk) hflag
+      refine ⟨h1, h2, h3, ?_, h4⟩
+      intro x g hne hg
+      cases g with
+      | nil => exact absurd rfl hne
+      | cons w g' =>
+        cases g' with
+        | nil =>
+          obtain ⟨e, he⟩ := Option.ne_none_iff_exists'.mp hg
+          exact Or.inl (parse_unigramsCover maxO multOk s p' u hp x w e he)
+        | cons w2 g2 =>
+          have hin := h5 (x :: w :: w2 :: g2) (by simp) hg
+          have := reach _ hin (by simp)
+          simp only [List.tail_cons] at this
+          rcases this with hk | ⟨hh, hhk, hl2, hlt, heq⟩
+          · exact Or.inl (h6 _ hk)
+          · exact Or.inr ⟨hh, h6 _ hhk, hl2, hlt, heq⟩
+
+/-- without blanks (every reversed prefix of an n-gram is an n-gram: what lmplz writes) the weakened predicate is C01's -/
+theorem wellFormed_of_prefixClosed (a : Arpa) (w : WellFormedThroughBlanks a)
+    (pc : ∀ h j, a.gram h ≠ none → 1 ≤ j → j < h.length → a.gram (h.take j) ≠ none) : KV.Score.WellFormed a := by
+  refine ⟨w.order_ge, w.len_pos, w.len_le, ?_, w.top_bo⟩
+  intro x g hne hg
+  rcases w.ctx_reachable x g hne hg with h | ⟨h, hh, h2, hlt, heq⟩
+  · exact h
+  · rw [heq]; exact pc h g.length hh (by omega) hlt
+
+/-- accepted by the probing family and prefix-closed ⇒ C01's `WellFormed` (so `fullScore_prob` etc. apply) -/
+theorem probing_accept_wellformed_prefixClosed (maxO : Nat) (multOk : Bool) (b : Nat → Nat) (s : Bytes) (p : LParsed) (u : Rat)
+    (mem : Nat) (h : load .probing maxO multOk b s mem = .ok p)
+    (pc : ∀ h j, (p.toArpa u).gram h ≠ none → 1 ≤ j → j < h.length → (p.toArpa u).gram (h.take j) ≠ none) :
+    KV.Score.WellFormed (p.toArpa u) :=
+  wellFormed_of_prefixClosed _ (probing_accept_wellformed maxO multOk b s p u mem h) pc
+
+/-- the converse view: C01's `WellFormed` is the weakened predicate with the blank disjunct never used -/
+theorem wellFormedThroughBlanks_of_wellFormed (a : Arpa) (w : KV.Score.WellFormed a) : WellFormedThroughBlanks a :=
+  ⟨w.order_ge, w.len_pos, w.len_le, fun x g hne hg => Or.inl (w.ctx_present x g hne hg), w.top_bo⟩
 
 /-! ## no index leaves its region -/
 
